@@ -197,7 +197,10 @@ fn cfg_bounded(tier: &str) {
         for l in lists(n, &mut memo) {
             let mut body = String::new();
             render(&l, 0, &mut body);
-            let src = format!("function f(x) {{\nvar y = 0;\n{}return y;\n}}\n", body);
+          // two frames: a leading declaration (the entry block is not empty when the body starts), and `y` as a parameter
+          // (the body's first statement is the first statement of the definition: loops / branches in the entry block)
+          for frame in 0..2 {
+            let src = if frame == 0 { format!("function f(x) {{\nvar y = 0;\n{}return y;\n}}\n", body) } else { format!("function f(x, y) {{\n{}return y;\n}}\n", body) };
             evals += 1;
             if body.contains("while") || body.contains("if") { nontrivial += 1; }
             if evals % 1499 == 1 && samples.len() < 6 { samples.push(jstr(&src)); }
@@ -218,11 +221,12 @@ fn cfg_bounded(tier: &str) {
                     viol.push(format!("{{\"unit\":\"cfg\",\"fn\":\"build_basic_blocks\",\"obligation\":{},\"input\":{},\"what\":{},\"replay\":\"replay_parser bounded-cfg\"}}", jstr(&ob), jstr(&src), jstr(&format!("{} — for\n{}", what, src))));
                 }
             }
+          }
         }
     }
     println!("{{\"unit\":\"cfg\",\"evaluations\":{},\"distinct_nontrivial\":{},\"exhaustive\":true,\"rule\":{},\"bound\":{},\"samples\":[{}],\"violations\":[{}]}}",
         evals, nontrivial,
-        jstr("every function body built from simple statements, if, if-else, while, braced and bare bodies, empty blocks, parsed and lifted by the real code (parse_definition + into_cfg), checked against the C12 well-formedness clauses I1-I9 (index, mirrored edges, entry, reachability, branch last, targets, successor count, loop depth, dominance order); non-trivial = contains control flow; bodies are pairwise distinct"),
+        jstr("every function body built from simple statements, if, if-else, while, braced and bare bodies, empty blocks, each once after a leading declaration and once as the very first statements of the definition, parsed and lifted by the real code (parse_definition + into_cfg), checked against the C12 well-formedness clauses I1-I9 (index, mirrored edges, entry, reachability, branch last, targets, successor count, loop depth, dominance order); non-trivial = contains control flow; bodies are pairwise distinct"),
         jstr(&format!("all statement lists with at most {} statement nodes (nesting unrestricted within that size); {} shapes rejected by the Circom grammar skipped", maxsize, skipped)),
         samples.join(","), viol.join(","));
 }
